@@ -245,7 +245,12 @@ impl Tokenizer<'_> {
                 Ok(())
             }
 
-            '\n' => Err(KikiErr::Lex(current_index, Some(current))),
+            '\n' => {
+                // A mismatched closing bracket earlier on the line
+                // is the first offending character, not the newline.
+                self.assert_outer_attribute_brackets_match(start, end)?;
+                Err(KikiErr::Lex(current_index, Some(current)))
+            }
 
             _ => {
                 self.state = State::OuterAttribute(
@@ -259,6 +264,24 @@ impl Tokenizer<'_> {
     }
 
     fn finish_outer_attribute(&mut self, start: ByteIndex, end: ByteIndex) -> Result<(), KikiErr> {
+        self.assert_outer_attribute_brackets_match(start, end)?;
+
+        self.state = State::Main;
+        self.out.push(Token::OuterAttribute(Attribute {
+            src: self.src[start.0..end.0].to_string(),
+            position: start,
+        }));
+        Ok(())
+    }
+
+    /// Checks that every closing bracket in `self.src[start..end]`
+    /// matches the most recent unclosed opening bracket.
+    /// Unclosed opening brackets are **not** an error.
+    fn assert_outer_attribute_brackets_match(
+        &self,
+        start: ByteIndex,
+        end: ByteIndex,
+    ) -> Result<(), KikiErr> {
         let mut stack = Vec::new();
         let bracket_start = ByteIndex(start.0 + "#".len());
         for (current_index, current) in self.src[bracket_start.0..end.0].char_indices() {
@@ -290,11 +313,6 @@ impl Tokenizer<'_> {
             }
         }
 
-        self.state = State::Main;
-        self.out.push(Token::OuterAttribute(Attribute {
-            src: self.src[start.0..end.0].to_string(),
-            position: start,
-        }));
         Ok(())
     }
 
